@@ -62,6 +62,11 @@ def corpus():
                        init=[["enq", "U0", 0, None, 1]], stdin=[], run_empty=True, deliver_at=[]))
 
 
+def started_run(x, i):
+    """a handler or callback was observed before observation i: run() is under way (before run() the loop has one level too, but keep start-up actions out)"""
+    return any(e[0][0] in ("H", "cb") for e in x.x[:i])
+
+
 def monitor(case, obs):
     x = X(case, obs)
     stop = None; started = False
@@ -72,6 +77,9 @@ def monitor(case, obs):
             if any(e[0][0] in ("H", "cb") for e in x.x[:i]): stop = (i, ev[1])
         if ev[0] == "api<" and ev[1] == "close_loop" and ctx.get("depth") == 0 and stop is None:
             stop = (i, "close_loop of the outermost loop")         # the outermost loop is closed (its drain is over): nothing may run any more
+        if ev[0] in ("H", "cb", "EXC-handled") and ctx.get("depth") == 0 and started_run(x, i) and x.force_quit_index() is None and not ctx.get("reader"):
+            # the outermost loop has been closed (no loop level is left) and no force-quit emptied the levels: the exit that follows the pop lets nothing run any more
+            return "%s ran although the outermost loop had been closed (no loop level is open)" % (("handler %d" % ev[1]) if ev[0] == "H" else ("%s() of screen %d" % (ev[2], ev[1])) if ev[0] == "cb" else "the exception handler")
         if stop is not None and i > stop[0] and ev[0] == "H":
             return "handler %d was invoked (signal %r) after %s" % (ev[1], ev[2], stop[1])
         if stop is not None and i > stop[0] and ev[0] == "EXC-handled":
